@@ -3,3 +3,4 @@ pub mod util;
 pub mod s_merkle;
 pub mod refcodec;
 pub mod s_wire;
+pub mod s_signer;
